@@ -76,4 +76,78 @@ theorem normalizeL_noAdjacent : ∀ (ts : List Tree) (p : List Nat) (hv : Bool),
       simp only [normalizeL, flush, if_true, List.cons_append, List.nil_append, noAdj_text_node, noAdj_node_cons]
       rw [normalizeL_noAdjacent cs [] false, normalizeL_noAdjacent ts [] false]; rfl
 
+/-! ### text content, normalisation and text adjacency depend on the shape only -/
+
+mutual
+/-- a tree of the given shape (all ids 0) -/
+def ofShape : Shape → Tree
+  | .text s => .text 0 s
+  | .node k nm cs => .node 0 k nm (ofShapeL cs)
+def ofShapeL : List Shape → List Tree
+  | [] => []
+  | c :: cs => ofShape c :: ofShapeL cs
+end
+
+mutual
+theorem textContent_ofShape : ∀ t : Tree, (ofShape t.shape).textContent = t.textContent
+  | .text _ s => by simp [Tree.shape, ofShape, Tree.textContent]
+  | .node _ k nm cs => by simp [Tree.shape, ofShape, Tree.textContent, textContentL_ofShape cs]
+theorem textContentL_ofShape : ∀ ts : List Tree, textContentL (ofShapeL (shapeL ts)) = textContentL ts
+  | [] => by simp [shapeL, ofShapeL, textContentL]
+  | t :: ts => by simp [shapeL, ofShapeL, textContentL, textContent_ofShape t, textContentL_ofShape ts]
+end
+
+theorem textContent_congr {t u : Tree} (h : t.shape = u.shape) : t.textContent = u.textContent := by
+  rw [← textContent_ofShape t, ← textContent_ofShape u, h]
+
+mutual
+theorem normalize_ofShape : ∀ t : Tree, (ofShape t.shape).normalize.shape = t.normalize.shape
+  | .text _ s => by simp [Tree.shape, ofShape, Tree.normalize]
+  | .node _ k nm cs => by
+    simp only [Tree.shape, ofShape, Tree.normalize]
+    rw [normalizeL_ofShape cs [] false]
+theorem normalizeL_ofShape : ∀ (ts : List Tree) (p : List Nat) (hv : Bool),
+    shapeL (normalizeL (ofShapeL (shapeL ts)) p hv) = shapeL (normalizeL ts p hv)
+  | [], p, hv => by simp [shapeL, ofShapeL, normalizeL]
+  | .text _ s :: ts, p, hv => by
+    simp only [shapeL, Tree.shape, ofShapeL, ofShape, normalizeL]
+    exact normalizeL_ofShape ts (p ++ s) true
+  | .node _ k nm cs :: ts, p, hv => by
+    simp only [shapeL, Tree.shape, ofShapeL, ofShape, normalizeL]
+    have shapeL_app : ∀ a b : List Tree, shapeL (a ++ b) = shapeL a ++ shapeL b := by
+      intro a b; induction a with
+      | nil => simp [shapeL]
+      | cons x xs ih => simp [shapeL, ih]
+    rw [shapeL_app, shapeL_app]
+    simp only [shapeL, Tree.shape]
+    rw [normalizeL_ofShape cs [] false, normalizeL_ofShape ts [] false]
+end
+
+theorem normalize_congr {t u : Tree} (h : t.shape = u.shape) : t.normalize.shape = u.normalize.shape := by
+  rw [← normalize_ofShape t, ← normalize_ofShape u, h]
+
+theorem isText_ofShape (t : Tree) : (ofShape t.shape).isText = t.isText := by
+  cases t <;> simp [Tree.shape, ofShape, Tree.isText]
+
+theorem noAdjacentText_ofShape : ∀ ts : List Tree, noAdjacentText (ofShapeL (shapeL ts)) = noAdjacentText ts
+  | [] => by simp [shapeL, ofShapeL, noAdjacentText]
+  | [.text _ _] => by simp [shapeL, ofShapeL, Tree.shape, ofShape, noAdjacentText]
+  | [.node _ _ _ cs] => by
+    simp only [shapeL, ofShapeL, Tree.shape, ofShape, noAdjacentText]
+    exact noAdjacentText_ofShape cs
+  | .text i s :: u :: ts => by
+    have ih := noAdjacentText_ofShape (u :: ts)
+    simp only [shapeL, ofShapeL] at ih
+    simp only [shapeL, ofShapeL, Tree.shape, ofShape, noAdjacentText, Tree.isText, ih]
+    cases u <;> simp [Tree.shape, ofShape]
+  | .node i k nm cs :: u :: ts => by
+    have ih := noAdjacentText_ofShape (u :: ts)
+    have ihc := noAdjacentText_ofShape cs
+    simp only [shapeL, ofShapeL] at ih
+    simp only [shapeL, ofShapeL, Tree.shape, ofShape, noAdjacentText, Tree.isText, ih, ihc]
+    cases u <;> simp [Tree.shape, ofShape]
+
+theorem noAdjacentText_congr {ts us : List Tree} (h : shapeL ts = shapeL us) : noAdjacentText ts = noAdjacentText us := by
+  rw [← noAdjacentText_ofShape ts, ← noAdjacentText_ofShape us, h]
+
 end PlasVerif.Proofs.DomTree
